@@ -294,6 +294,8 @@ def step (line : String) : String :=
 /-! ### World session (stateful ops) -/
 
 structure DState where
+  cache : Cache.Cache := { maxreads := 0 }
+  head : Cache.Head := { maxreads := 0 }
   db : World.DB := {}
   tasks : List (String × World.Task) := []
   saved : List (String × World.DB) := []
@@ -363,7 +365,54 @@ def showOutcome : World.Outcome → String
 
 def stepS (st : DState) (line : String) : DState × String :=
   match (line.splitOn " ").filter (· ≠ "") with
-  | ["w-init"] => ({}, "ok")
+  | ["c-init", m] =>
+    match m.toNat? with
+    | some m => ({ st with cache := { maxreads := m } }, "ok")
+    | none => (st, "bad-op")
+  | ["c-get", a, b, f] =>
+    match a.toNat?, b.toNat? with
+    | some a, some b =>
+      let fetch := if f == "!" then none else f.toNat?
+      let (c, out) := st.cache.get (a, b) fetch
+      let dump := sortStrings (c.map.map fun e =>
+        let sg := c.seg e.2
+        s!"{pad12 e.1.1}:{e.1.2}:{sg.nreads}:{sg.done}")
+      let o := match out with
+        | .hit d => s!"hit {d}"
+        | .fetched d => s!"fetched {d}"
+        | .err => "err"
+      ({ st with cache := c }, o ++ " [" ++ ",".intercalate dump ++ "]")
+    | _, _ => (st, "bad-op")
+  | ["c-getc", a, b, f] =>
+    -- class only (hit / fetched / err): used where the harness observes the real client from outside
+    match a.toNat?, b.toNat? with
+    | some a, some b =>
+      let (c, out) := st.cache.get (a, b) (if f == "!" then none else f.toNat?)
+      ({ st with cache := c }, match out with | .hit _ => "hit" | .fetched _ => "fetched" | .err => "err")
+    | _, _ => (st, "bad-op")
+  | ["h-init", m] =>
+    match m.toNat? with
+    | some m => ({ st with head := { maxreads := m } }, "ok")
+    | none => (st, "bad-op")
+  | ["h-update", n, h] =>
+    match n.toNat? with
+    | some n =>
+      let hd := st.head.update n h
+      ({ st with head := hd }, s!"{hd.num} {hd.hash} {hd.nreads} {hd.err}")
+    | none => (st, "bad-op")
+  | ["h-error"] =>
+    let hd := st.head.error
+    ({ st with head := hd }, s!"{hd.num} {hd.hash} {hd.nreads} {hd.err}")
+  | ["h-get", n] =>
+    match n.toNat? with
+    | some n =>
+      let (hd, r) := st.head.get n
+      let o := match r with
+        | some (m, h) => s!"hit {m} {h}"
+        | none => "miss"
+      ({ st with head := hd }, o ++ s!" | {hd.num} {hd.hash} {hd.nreads} {hd.err}")
+    | none => (st, "bad-op")
+  | ["w-init"] => ({ st with db := {}, tasks := [], saved := [] }, "ok")
   | ["w-others", id] =>
     -- digest of everything that does NOT belong to task `id` (frame check, C04)
     match st.tasks.find? (·.1 == id) with
